@@ -637,9 +637,45 @@ var (
 // tree is still known to diverge from the specification (see notes/C05.md); they are only set in
 // report-only cases.
 type sgen struct {
-	r            *rand.Rand
+	r *rand.Rand
+	// docWords: the words holding a pseudo-space that occur in the attribute values of the case's
+	// document; names / operands with a pseudo-space are drawn from them half of the time, so that such
+	// selectors do match something
+	docWords     []string
 	kdAttrBlank  bool // ^= $= *= with a white-space-only (non-empty) operand, against blank values
 	kdHasComplex bool // :has() whose argument contains a descendant or child combinator
+}
+
+// psWord: a name / operand holding a pseudo-space.
+func (g *sgen) psWord() string {
+	if len(g.docWords) > 0 && g.r.Intn(2) == 0 {
+		return pick(g.r, g.docWords)
+	}
+	return psName(g.r, psWordsRich)
+}
+
+// collectPSWords lists the white-space-separated words with a pseudo-space of all attribute values.
+func collectPSWords(forest []*gnode) []string {
+	var out []string
+	var rec func(n *gnode)
+	rec = func(n *gnode) {
+		for _, a := range n.attrs {
+			if hasPseudoSpace(a.v) {
+				for _, w := range splitASCIIWS(a.v) {
+					if hasPseudoSpace(w) {
+						out = append(out, w)
+					}
+				}
+			}
+		}
+		for _, k := range n.kids {
+			rec(k)
+		}
+	}
+	for _, n := range forest {
+		rec(n)
+	}
+	return out
 }
 
 func wsOnly(s string) bool {
@@ -662,9 +698,9 @@ func (g *sgen) attrSimple() Simple {
 	}
 	for {
 		switch x := r.Intn(100); {
-		case x < 8:
+		case x < 8, s.Op == "~=" && x < 25:
 			// an operand containing a pseudo-space: one word for ~=, ordinary characters for the others
-			s.V = psName(r, psWordsRich)
+			s.V = g.psWord()
 		case x < 70:
 			s.V = pick(r, operandPool)
 		case x < 88:
@@ -704,7 +740,7 @@ func (g *sgen) simple(depth int) Simple {
 		switch x := r.Intn(100); {
 		case x < 18:
 			if r.Intn(100) < 9 {
-				return cl(psName(r, psWordsRich)) // ".c\a0 d": one class name
+				return cl(g.psWord()) // ".c\a0 d": one class name
 			}
 			return cl(pick(r, selClassPool))
 		case x < 26:
